@@ -270,6 +270,9 @@ def cases(tier):
         for si, sub in enumerate(subsets):
             chosen = {p: pick(kinds, si + j + p, pos[p][0], pos[p][1], p) for j, p in enumerate(sub)}
             out.append(("prog", name, chosen))
+            # the same template on a mappable register (resolved at build time): any prefix of the program may be
+            # concrete, i.e. replayed before the register is set
+            out.append(("progm", name, chosen))
         # every expression kind at every single position, and all kind pairs on the first two positions
         for p in ids:
             for k in kinds:
@@ -284,7 +287,20 @@ def cases(tier):
     return out
 
 
-def run_prog(name, chosen):
+def mappable_template(w):
+    """A template on a MappableRegister whose full mapping reproduces the world's concrete register."""
+    from pulser import Sequence
+    from pulser.register.mappable_reg import MappableRegister
+    from pulser.register.register_layout import RegisterLayout
+
+    coords = [tuple(float(x) for x in np.asarray(w.register.qubits[q].as_array() if hasattr(w.register.qubits[q], "as_array")
+                                                 else w.register.qubits[q])) for q in w.qids]
+    L = RegisterLayout(coords + [(20.0, 20.0), (-8.0, 4.0)], slug="C08L")
+    ids = L.get_traps_from_coordinates(*coords)
+    return Sequence(MappableRegister(L, *w.qids), w.device), dict(zip(w.qids, ids))
+
+
+def run_prog(name, chosen, mappable=False):
     w = World(WORLD)
     pos = positions_of(name, w)
     A = {p: b for p, (b, i) in pos.items()}
@@ -309,7 +325,12 @@ def run_prog(name, chosen):
             direct[tag] = snapshot.snap(seq, with_calls=False)
         if direct["A"] is None and direct["B"] is None:
             return [("@not-directly-constructible", "")]
-        tmpl = w.fresh(apply_prefix=False)
+        qmap = {}
+        if mappable:
+            tmpl, mapping = mappable_template(w)
+            qmap = {"qubits": mapping}
+        else:
+            tmpl = w.fresh(apply_prefix=False)
         TV = Vals("template", chosen, A, tmpl)
         try:
             SKELETONS[name](tmpl, TV, w)
@@ -341,7 +362,7 @@ def run_prog(name, chosen):
                             buffers[vn] = arr.copy()
                         vals[vn] = buffers[vn]
                 try:
-                    b = tmpl.build(**vals)
+                    b = tmpl.build(**vals, **qmap)
                 except Exception as e:
                     out.append((f"C08:build-raises:{name}:{type(e).__name__}", f"{chosen} with {vals}: {e}"[:250]))
                     continue
@@ -370,13 +391,13 @@ def run_prog(name, chosen):
                 k0 = sorted(bad)[0]
                 bad[k0] = [1, 2] if not isinstance(bad[k0], list) else 5  # wrong size
                 try:
-                    tmpl.build(**bad)
+                    tmpl.build(**bad, **qmap)
                 except Exception:
                     pass
                 if snapshot.snap(tmpl, with_calls=True).key(with_calls=True) != t0:
                     out.append((f"C08:failed-build-altered-template:{name}", f"{chosen}"))
                 try:
-                    b = tmpl.build(**vals)
+                    b = tmpl.build(**vals, **qmap)
                     if snapshot.snap(b, with_calls=False).key() != direct["A"].key():
                         out.append((f"C08:build-after-failed-build-differs:{name}", f"{chosen}"))
                 except Exception as e:
@@ -452,8 +473,11 @@ def run_mappable(qi, traps):
 
 
 def worker(case):
-    if case[0] == "prog":
-        return run_prog(case[1], case[2])
+    if case[0] in ("prog", "progm"):
+        out = run_prog(case[1], case[2], mappable=case[0] == "progm")
+        if case[0] == "progm":  # distinct fingerprints for the mappable variant
+            out = [(fp.replace("C08:", "C08:mappable-template:", 1) if fp.startswith("C08:") else fp, d) for fp, d in out]
+        return out
     return run_mappable(case[1], case[2])
 
 
@@ -467,8 +491,8 @@ def run(tier, seed):
             if fp.startswith("@"):
                 classes[fp] = classes.get(fp, 0) + 1
             else:
-                res.add(Violation(fp, d, {"engine": "progx", "case": [c[0], c[1], c[2] if c[0] != "prog" else {str(k): v for k, v in c[2].items()}]},
-                                  size=len(c[2]) if c[0] == "prog" else 0))
+                res.add(Violation(fp, d, {"engine": "progx", "case": [c[0], c[1], c[2] if c[0] not in ("prog", "progm") else {str(k): v for k, v in c[2].items()}]},
+                                  size=len(c[2]) if c[0] in ("prog", "progm") else 0))
     res.coverage = dict(
         evaluations=len(cs), distinct_nontrivial=classes.get("@compared", 0) + classes.get("@mappable", 0), exhaustive=True,
         outcome_classes=classes,
@@ -486,6 +510,6 @@ def run(tier, seed):
 
 def replay(payload):
     c = payload["case"]
-    if c[0] == "prog":
-        return [Violation(fp, d, payload) for fp, d in run_prog(c[1], {int(k): v for k, v in c[2].items()}) if not fp.startswith("@")]
+    if c[0] in ("prog", "progm"):
+        return [Violation(fp, d, payload) for fp, d in worker((c[0], c[1], {int(k): v for k, v in c[2].items()})) if not fp.startswith("@")]
     return [Violation(fp, d, payload) for fp, d in run_mappable(c[1], tuple(c[2])) if not fp.startswith("@")]
